@@ -183,5 +183,14 @@ func init() {
 	runners["GFP"] = runGFP
 	runners["GSL"] = runGSL
 	runners["GSCAN"] = runGSCAN
+	// GPARSE <args of PARSE>: the same run of the real code, for event.go's read as translated (the bytes pulled from the
+	// reader are not visible through read: masked)
+	runners["GPARSE"] = func(a []string) string {
+		f := strings.Split(runners["PARSE"](a), " | ")
+		if len(f) == 4 {
+			f[2] = "-"
+		}
+		return strings.Join(f, " | ")
+	}
 	generators["GEN"] = genGEN
 }
